@@ -233,6 +233,15 @@ inline std::vector<SEntry> gen_table(size_t eff_block, int maxn, bool allow_huge
     if (m.count(k)) continue;
     m[k] = gen_value(eff_block, profile);
   }
+  if (allow_huge && !m.empty() && chance(1)) {
+    // one value of 2-3 MiB with an odd length (its length needs a four-byte varint)
+    auto it = m.begin();
+    std::advance(it, pick(0, (int)m.size() - 1));
+    it->second = BStr();
+    it->second.glen = (uint32_t)pick(2097153, 3000000);
+    it->second.gkind = (uint8_t)one_of<int>({0, 2});
+    it->second.gseed = (uint32_t)pick(0, 65535);
+  }
   std::vector<SEntry> out;
   for (auto &kv : m) {
     SEntry e;
@@ -264,6 +273,30 @@ inline void gen_many_blocks_pooled(WConfig &cfg, std::vector<SEntry> &entries) {
     e.v.glen = big ? 20000 : 1100;
     e.v.gseed = (uint32_t)i;
     e.v.gkind = (uint8_t)(i % 3 == 0 ? 0 : 2);  // incompressible and "abcabc..." values alternate
+    entries.push_back(e);
+  }
+}
+
+// One 256 KiB block holding a dozen or two entries at restart interval 1-3, a few of which carry values whose LENGTH needs a
+// three-byte varint (16 KiB and more): entry headers inside a block are then longer than the common three bytes, also at
+// restart points.
+inline void gen_big_values_in_big_blocks(WConfig &cfg, std::vector<SEntry> &entries) {
+  cfg = WConfig();
+  cfg.comp = weighted({60, 10, 10, 10, 5, 5});
+  cfg.block_size = 262144;
+  cfg.restart = pick(1, 3);
+  int n = pick(8, 24);
+  entries.clear();
+  for (int i = 0; i < n; i++) {
+    SEntry e;
+    char k[16];
+    snprintf(k, sizeof k, "key%03d", i * 10);
+    e.k = BStr::of(bytes(k));
+    if (chance(20)) {
+      e.v.glen = (uint32_t)one_of<int>({16383, 16384, 16385, 20000, 65536});
+      e.v.gkind = 0;
+    } else e.v.glen = (uint32_t)pick(0, 60);
+    e.v.gseed = (uint32_t)i;
     entries.push_back(e);
   }
 }
